@@ -1703,6 +1703,29 @@ class Interp:
         parts = dotted_name.split('.')
         if parts[0] not in _PURE_LIBS or dotted_name in _PURE_DENY:
             return False, None
+        if parts[0] == 'math' and len(parts) == 2 and any(isinstance(a, Rec) and isinstance(a.f.get('cls'), str) for a in args) and not kwargs:
+            # the math module converts its arguments through the number protocol of their class
+            special = {'floor': '__floor__', 'ceil': '__ceil__', 'trunc': '__trunc__'}.get(parts[1])
+            conv = []
+            for a in args:
+                if isinstance(a, Rec) and isinstance(a.f.get('cls'), str):
+                    if special:
+                        found, res = self._dunder(a, special)
+                        if found:
+                            return True, res
+                        if parts[1] == 'trunc':
+                            raise ExcRaised(Ref('builtin:TypeError'))
+                    found, res = self._dunder(a, '__float__')
+                    if not found:
+                        found, res = self._dunder(a, '__index__')
+                    if not found:
+                        raise ExcRaised(Ref('builtin:TypeError'))
+                    if isinstance(res, Rec):
+                        raise Unmodelled('__float__ of an abstract instance returns an abstract instance')
+                    conv.append(res)
+                else:
+                    conv.append(a)
+            args = conv
         if not all(_concrete(a) for a in args) or not all(_concrete(v) for v in kwargs.values()):
             return False, None
         obj = _PURE_LIBS[parts[0]]
